@@ -114,7 +114,7 @@ class SimpleHpoaDiseaseLoader(HpoDiseaseLoader):
                             # The older HPOA format
                             expecting_to_see_header_line = False
                         else:
-                            version_matcher = HPOA_VERSION_PATTERN.match(line)
+                            version_matcher = HPOA_VERSION_PATTERN.match(line.rstrip('\r\n'))
                             if version_matcher:
                                 version = version_matcher.group('version')
                     else:
